@@ -37,7 +37,16 @@ def main():
                 continue
             for k in sorted(os.listdir(pdir)):
                 items.append((prop, k, os.path.join(pdir, k)))
+    baseline = {}
     for prop, k, d in items:
+        if prop not in baseline:
+            # a detection only means something if the property's check is clean on the tree the
+            # change is applied to (an open defect of the same obligation would "detect" anything)
+            brc, bout = sh(f"./check {prop}", cwd=VERIF, env={"VERIF_NO_EVIDENCE": "1", "VERIF_REPO": REPO})
+            baseline[prop] = (brc == 0 and not any(l.startswith(("VIOLATION", "CHECKER-ERROR", "UNDECIDED")) for l in bout.splitlines()))
+        if not baseline[prop]:
+            summary.append((prop, k, "BASELINE-NOT-CLEAN", "", ""))
+            continue
         if True:
             if not os.path.exists(os.path.join(d, "patch.diff")):
                 continue
